@@ -66,6 +66,7 @@ type job struct {
 	focus   string // "" = full alphabet; "dlq" = small alphabet centred on dead-lettering and DLQ retention
 	scaled  bool   // memory: order-list compaction thresholds lowered (qcheck.Spec.ScaleCompaction)
 	prefix  int    // > 0: start from qcheck.RichPrefixes(alpha())[prefix-1] instead of the empty queue
+	late    int    // > 0: start from latePrefixes(alpha())[late-1] (late_test.go)
 }
 
 // dlqAlpha: two messages with equal received_at (batch), dead-lettered singly or as a batch, DLQ listing / requeue /
@@ -111,27 +112,34 @@ func TestCheck(t *testing.T) {
 	r := runner.Start("C02", "model_checking")
 	var jobs []job
 	for _, cfg := range configs(r) {
-		jobs = append(jobs, job{"memory", runner.Pick(r, 5, 6), cfg, "", false, 0}, job{"sqlite", runner.Pick(r, 4, 5), cfg, "", false, 0})
+		jobs = append(jobs, job{"memory", runner.Pick(r, 5, 6), cfg, "", false, 0, 0}, job{"sqlite", runner.Pick(r, 4, 5), cfg, "", false, 0, 0})
 	}
-	jobs = append(jobs, job{"sqlite", runner.Pick(r, 5, 6), qmodel.Config{}, "restart", false, 0},
-		job{"sqlite", runner.Pick(r, 5, 6), qmodel.Config{DeliveredMaxAge: 10 * sec, DLQMaxAge: 10 * sec, PruneInterval: sec}, "restart", false, 0})
+	jobs = append(jobs, job{"sqlite", runner.Pick(r, 5, 6), qmodel.Config{}, "restart", false, 0, 0},
+		job{"sqlite", runner.Pick(r, 5, 6), qmodel.Config{DeliveredMaxAge: 10 * sec, DLQMaxAge: 10 * sec, PruneInterval: sec}, "restart", false, 0, 0})
 	for pi := range qcheck.RichPrefixes(alpha()) {
-		jobs = append(jobs, job{"memory", runner.Pick(r, 4, 5), qmodel.Config{}, "churn", false, pi + 1})
+		jobs = append(jobs, job{"memory", runner.Pick(r, 4, 5), qmodel.Config{}, "churn", false, pi + 1, 0})
 	}
 	// non-initial start states (parked, settled, delayed and expired-lease populations), both backends
 	for pi := range qcheck.RichPrefixes(alpha()) {
-		jobs = append(jobs, job{"memory", runner.Pick(r, 4, 5), qmodel.Config{}, "", true, pi + 1}, job{"sqlite", runner.Pick(r, 3, 4), qmodel.Config{}, "", false, pi + 1})
+		jobs = append(jobs, job{"memory", runner.Pick(r, 4, 5), qmodel.Config{}, "", true, pi + 1, 0}, job{"sqlite", runner.Pick(r, 3, 4), qmodel.Config{}, "", false, pi + 1, 0})
 		if r.Thorough() {
 			c := qmodel.Config{DeliveredMaxAge: 10 * sec, DLQMaxAge: 10 * sec, PruneInterval: sec}
-			jobs = append(jobs, job{"memory", 4, c, "", true, pi + 1}, job{"sqlite", 3, c, "", false, pi + 1})
+			jobs = append(jobs, job{"memory", 4, c, "", true, pi + 1, 0}, job{"sqlite", 3, c, "", false, pi + 1, 0})
 		}
 	}
 	// the same memory searches with the order-list compaction brought into reach
 	for _, cfg := range configs(r) {
-		jobs = append(jobs, job{"memory", runner.Pick(r, 5, 6), cfg, "", true, 0})
+		jobs = append(jobs, job{"memory", runner.Pick(r, 5, 6), cfg, "", true, 0, 0})
 	}
 	for _, cfg := range []qmodel.Config{{DLQMaxDepth: 1, PruneInterval: sec}, {DLQMaxDepth: 2, DLQMaxAge: 10 * sec, PruneInterval: sec}} {
-		jobs = append(jobs, job{"memory", runner.Pick(r, 6, 7), cfg, "dlq", false, 0}, job{"sqlite", runner.Pick(r, 5, 6), cfg, "dlq", false, 0})
+		jobs = append(jobs, job{"memory", runner.Pick(r, 6, 7), cfg, "dlq", false, 0, 0}, job{"sqlite", runner.Pick(r, 5, 6), cfg, "dlq", false, 0, 0})
+	}
+	// late settlements (late_test.go): start states whose settlement lies max_age or more after the reception, every
+	// age rule on; both backends
+	for li := range latePrefixes(alpha()) {
+		for _, cfg := range lateConfigs() {
+			jobs = append(jobs, job{backend: "memory", depth: runner.Pick(r, 4, 5), cfg: cfg, late: li + 1}, job{backend: "sqlite", depth: runner.Pick(r, 3, 4), cfg: cfg, late: li + 1})
+		}
 	}
 	if runner.ReplayPath() != "" {
 		if !qcheck.HandleReplay(r, []qcheck.Spec{{Name: "c02", Alpha: alpha()}, {Name: "c02-dlq", Alpha: dlqAlpha()}, {Name: "c02-restart", Alpha: restartAlpha()}, {Name: "c02-churn", Alpha: churnAlpha()}}, nil) {
@@ -143,6 +151,10 @@ func TestCheck(t *testing.T) {
 	waves := (len(jobs) + par - 1) / par
 	budget := runner.Pick(r, 150*time.Second, 13*time.Minute) / time.Duration(waves)
 	if ji, ok := runner.Job(); ok {
+		if ji >= len(jobs) {
+			ingressPart(r, ji-len(jobs))
+			r.Finish()
+		}
 		j := jobs[ji]
 		al, name := alpha(), "c02"
 		if j.focus == "dlq" {
@@ -161,8 +173,15 @@ func TestCheck(t *testing.T) {
 				pre = qcheck.RichPrefixes(churnAlpha())[j.prefix-1]
 			}
 		}
+		if j.late > 0 {
+			pre = latePrefixes(alpha())[j.late-1]
+		}
 		spec := qcheck.Spec{Name: name, Backend: j.backend, Prefix: pre.Ops, PrefixName: pre.Name, Cfg: j.cfg, Alpha: al, Depth: j.depth, Workers: 3, ScaleCompaction: j.scaled,
 			MaxTrans: runner.Pick(r, int64(3_000_000), int64(40_000_000)), Deadline: time.Now().Add(budget)}
+		if j.late > 0 {
+			// one key per (backend, operation kind) that met the wrong state, not per message text
+			spec.VioKey = func(hist []qmodel.Op, op qmodel.Op, msg string) string { return "late-settlement:" + j.backend + ":" + op.Kind }
+		}
 		res := qcheck.Run(spec)
 		for e := range res.Edges {
 			if !legalEdges[e] {
@@ -176,9 +195,9 @@ func TestCheck(t *testing.T) {
 	if _, child := runner.IsShard(); child {
 		return
 	}
-	r.RunJobs(len(jobs), par, budget+2*time.Minute)
+	r.RunJobs(len(jobs)+len(ingressBackends), par+len(ingressBackends), budget+2*time.Minute)
 	r.Assume("Postgres backend not executed (no server in the sandbox)")
 	r.Assume("alphabet: ids a,b,c on routes /r1,/r1,/r2 and targets t1,t2,t1; see DESIGN.md §6 C02")
-	r.Set("rule", "every operation sequence over the alphabet up to the depth per backend/config; a state is distinct by canonical implementation dump; non-trivial = distinct (operation kind, result class) pairs and distinct observed state-machine edges; plus a two-handle part: the gateway's SQLite store and a second default-option store on the same file (the MCP server's direct mode) run settlements against cancel/requeue/resume/DLQ operations, every interleaving of their statements that SQLite's write lock admits (unbounded, sleep-set reduced), oracle = linearizability against qmodel + lease monitor")
+	r.Set("rule", "every operation sequence over the alphabet up to the depth per backend/config; a state is distinct by canonical implementation dump; non-trivial = distinct (operation kind, result class) pairs and distinct observed state-machine edges; plus a two-handle part: the gateway's SQLite store and a second default-option store on the same file (the MCP server's direct mode) run settlements against cancel/requeue/resume/DLQ operations, every interleaving of their statements that SQLite's write lock admits (unbounded, sleep-set reduced), oracle = linearizability against qmodel + lease monitor; plus searches from late-settlement start states (settled max_age or more after the reception; every age rule on); plus an ingress part: production boot per backend, every sequence of webhooks with different bodies through the real ingress handler and consumer operations up to a length, every stored message compared field by field with its acceptance record after every step")
 	r.Finish()
 }
